@@ -61,6 +61,9 @@ def descs():
 
 
 def mkrec(letter, i, ts=TS):
+    if letter == "P":
+        # a "poison" record of descriptor A: its text holds a lone surrogate, which Avro cannot encode
+        return descs()["A"](n=i, s="rec-A-%d-x\udce9" % i, _generated=ts)
     return descs()[letter](n=i, s="rec-%s-%d-x" % (letter, i), _generated=ts)
 
 
@@ -438,11 +441,23 @@ def known_class(kf, case):
     return None
 
 
+class LibraryFailure(Exception):
+    """the library itself refused to set the case up (e.g. RecordWriter(uri) raised): a failing input of the library"""
+
+
+def _lib(fn, what):
+    try:
+        return fn()
+    except Exception as e:  # noqa
+        raise LibraryFailure("%s raised %s: %s" % (what, type(e).__name__, str(e)[:200]))
+
+
 class Case:
     """one executed case: Coq terms (bool) for the correspondence, the verdict of the property oracle"""
-    __slots__ = ("terms", "meta", "problems", "kcase")
+    __slots__ = ("terms", "meta", "problems", "kcase", "harness_error")
 
-    def __init__(self, terms, meta, problems, kcase=None):
+    def __init__(self, terms, meta, problems, kcase=None, harness_error=None):
+        self.harness_error = harness_error   # the HARNESS could not run the case (never a failing input of the library)
         self.terms = terms          # list of Gallina bool terms
         self.meta = meta            # replay object
         self.problems = problems    # list of str: the property fails on the implementation
@@ -471,7 +486,7 @@ def run_history(tname, hist, workdir):
     for p in (path, path + "-journal", path + "-wal"):
         if os.path.exists(p):
             os.remove(p)
-    w = RecordWriter(wuri.format(p=path))
+    w = _lib(lambda: RecordWriter(wuri.format(p=path)), "RecordWriter(%r)" % wuri.format(p=os.path.basename(path)))
     outs, written, errors = [], [], []
     nid = 0
     for op in hist:
@@ -524,6 +539,15 @@ def history_case(tname, hist, workdir):
         kcase = dict(adapter=family, klass=klass, symptom=symptom)
     terms = []
     has_reader = ruri is not None
+    poison = any(op == "WP" for op in hist)
+    if poison:
+        # a refused record is not modelled: these histories are judged by the property's oracle alone
+        # (the records accepted before and after the refused one must all be readable after close)
+        if any(w[0] == "P" for w in written):
+            problems.append("the record with an unencodable text was accepted: %s" % [w for w in written if w[0] == "P"])
+        meta = dict(kind="history", target=tname, history=list(hist), outcomes=outs, written=[list(x) for x in written],
+                    errors=errors, before_del=_obs_brief(obs1) if has_close else None, after_del=_obs_brief(obs2))
+        return Case(terms, meta, problems, kcase)
     if has_close:
         terms.append("chk %s %d %s false %s %s %s" % (k, batch, c_ops(hist), c_outs(outs),
                                                      _opt(c_file(family, obs1)), c_reader(obs1, has_reader)))
@@ -644,12 +668,13 @@ def run_split(tname, hist, count, suf, workdir, via="writer", spelling="abs"):
                     w.write(mkrec(letter, i))
             target = rdump_target(tname, path, scheme)
             uri = ("split://" + target) if "://" not in target else ("split+" + target)
-            rdump.main([inp, "--split=%d" % count, "--suffix-length=%d" % suf, "-w", target])
+            _lib(lambda: rdump.main([inp, "--split=%d" % count, "--suffix-length=%d" % suf, "-w", target]),
+                 "rdump --split=%d --suffix-length=%d -w %s" % (count, suf, target))
             outs = ["Ok"] * len(hist)
             written = recs
         else:
             uri = split_uri(tname, path, count, suf, scheme)
-            w = RecordWriter(uri)
+            w = _lib(lambda: RecordWriter(uri), "RecordWriter(%r)" % uri)
             nid = 0
             for op in hist:
                 try:
@@ -877,9 +902,9 @@ def run_rotation(tkind, ops, clock_mode, pre_kind, workdir, archive=False):
     d = os.path.join(workdir, "rot")
     shutil.rmtree(d, ignore_errors=True)
     os.makedirs(d)
-    spec = facts.rotation_formats(S.PathTemplateWriter, stamp_only=True)[0]
     clock = make_clock(clock_mode)
-    stamps = [format(c, spec) for c in clock]
+    # the stamp of each instant, observed by rotating a scratch file with the clock frozen there
+    stamps = [facts.rotation_stamp(c) for c in clock]
 
     def ts_of(hour):
         return _dt.datetime(2020, 1, 1 + hour // 24, hour % 24, tzinfo=UTC)
@@ -904,9 +929,9 @@ def run_rotation(tkind, ops, clock_mode, pre_kind, workdir, archive=False):
     S.datetime = fake
     try:
         if archive:
-            w = RecordWriter("archive://" + d + "?name=records")
+            w = _lib(lambda: RecordWriter("archive://" + d + "?name=records"), "RecordWriter('archive://...')")
         else:
-            w = S.PathTemplateWriter(path_template=os.path.join(d, tmpl))
+            w = _lib(lambda: S.PathTemplateWriter(path_template=os.path.join(d, tmpl)), "PathTemplateWriter(...)")
         nid = 0
         for op in ops:
             try:
@@ -1091,7 +1116,10 @@ def _run_job(job):
                         spelling=args[6])
         else:
             meta.update(template=args[0], ops=[list(o) if o != "C" else "C" for o in args[1]], clock=args[2], pre=args[3], archive=args[4])
-        return Case([], meta, ["running the case raised %s: %s" % (type(e).__name__, str(e)[:200])], None)
+        if isinstance(e, LibraryFailure):
+            return Case([], meta, [str(e)], None)
+        # anything else is the harness's own failure (a recogniser, an observation tool, a bug): not a failing input
+        return Case([], meta, [], None, harness_error="%s: %s" % (type(e).__name__, str(e)[:300]))
 
 
 def plan_jobs(ctx):
@@ -1102,6 +1130,15 @@ def plan_jobs(ctx):
         for hist in histories(maxlen):
             jobs.append((("history", root, (tname, hist)), ("history", tname, hist), len(hist) > 0))
     ctx.notes.append("histories: " + ", ".join("%s<=%d" % kv for kv in history_plan(ctx.tier).items()))
+    # Avro: a write() that is refused half-way (unencodable text) must not disturb the records accepted around it
+    npoison = 0
+    if "avro" in available_targets():
+        for n in range(1, (4 if ctx.tier == "quick" else 5) + 1):
+            for hist in itertools.product(["WA", "WP", "F", "C", "X"], repeat=n):
+                if "WP" in hist:
+                    npoison += 1
+                    jobs.append((("history", root, ("avro", hist)), ("history-refused-write", "avro", hist), True))
+    ctx.notes.append("avro histories with a refused (unencodable) record: %d" % npoison)
     nsplit = 0
     for item in split_plan(ctx.tier):
         tname, n, count, suf, closing, via = item[:6]
@@ -1178,6 +1215,9 @@ def search(ctx, reason):
         ctx.notes.append("search raised %r" % (e,))
         return False
     kf = core.known_for("C17")
+    herr = [c for c in cases if c.harness_error]
+    if herr:
+        ctx.notes.append("search: the harness could not run %d cases, first: %s" % (len(herr), herr[0].harness_error))
     for c in cases:
         if c.problems and not known_class(kf, c.kcase or {}):
             ctx.violation("%s; failing input: %s: %s" % (reason, _describe(c.meta), "; ".join(c.problems)[:300]),
@@ -1217,6 +1257,12 @@ def run(ctx):
     import time
     t_proof = time.time() - ctx.t0
     cases = collect(ctx)
+    herr = [c for c in cases if c.harness_error]
+    if herr:
+        ctx.violation("the check's harness could not run %d of %d cases (its own failure, not a failing input), first: %s: %s" % (
+            len(herr), len(cases), _describe(herr[0].meta), herr[0].harness_error),
+            dict(kind="harness-exception", first=herr[0].meta, error=herr[0].harness_error), no_input=True)
+        return
     t_impl = time.time() - ctx.t0 - t_proof
     np_terms, np_problems = next_path_cases()
     terms = []
